@@ -19,8 +19,41 @@ def frame_points(drv):
         _frame = out
     return _frame
 
+_axes = None
+def seam_points(drv, rng, n):
+    """points along the 30 great-circle seams between adjacent dodecahedron faces, offset across the seam by 1e-2 .. 1e-10 degrees"""
+    global _axes
+    if _axes is None:
+        from a5.core.origin import origins
+        from a5.core.coordinate_transforms import to_cartesian
+        ax = [tuple(float(x) for x in to_cartesian(o.axis)) for o in origins]
+        pairs = []
+        for i in range(12):
+            for j in range(i + 1, 12):
+                d = sum(a * b for a, b in zip(ax[i], ax[j]))
+                if 0.3 < d < 0.6:      # adjacent faces: cos(63.43 deg) = 0.447
+                    pairs.append((ax[i], ax[j]))
+        _axes = pairs
+    out = []
+    for _ in range(n):
+        A, B = rng.choice(_axes)
+        m = [(a + b) / 2 for a, b in zip(A, B)]
+        t = [A[1] * B[2] - A[2] * B[1], A[2] * B[0] - A[0] * B[2], A[0] * B[1] - A[1] * B[0]]
+        tn = math.sqrt(sum(x * x for x in t))
+        # half edge length is ~0.3649 rad; a third of the points near the edge midpoint, a sixth near the two end vertices
+        along = rng.choice([rng.uniform(-0.36, 0.36)] * 3 + [rng.uniform(-0.01, 0.01)] * 2 + [rng.choice([-1, 1]) * 0.3648 * (1 - 10.0 ** rng.uniform(-8, -1))])
+        across = rng.choice([-1, 1]) * 10.0 ** rng.uniform(-10, -2) * math.pi / 180
+        v = [mi + math.tan(along) * 0.85 * ti / tn + across * (b - a) for mi, ti, a, b in zip(m, t, A, B)]
+        vn = math.sqrt(sum(x * x for x in v))
+        v = [x / vn for x in v]
+        # v is on the authalic sphere; convert to geodetic lon/lat with the library's own inverse (inputs only, judged elsewhere)
+        from a5.core.coordinate_transforms import to_lonlat, to_spherical
+        lo, la = to_lonlat(to_spherical(tuple(v)))
+        out.append((((lo + 180) % 360) - 180, la))
+    return out
+
 def points(drv, tier, rng, n_random):
-    pts = []
+    pts = seam_points(drv, rng, 40 if tier == 'quick' else 2000)
     fr = frame_points(drv)
     reps = 1 if tier == 'quick' else 6
     for lon, lat in fr:
@@ -74,8 +107,13 @@ def cells(drv, tier, rng, n_random):
                 cs.append(ref_id(t, S, r))
     for _ in range(n_random):
         cs.append(random_valid_id(rng, 0, 29))
-    # cells found at poles / frame points / antimeridian
+    # cells found at poles / frame points / antimeridian / along the face seams (fine resolutions)
     a5 = drv.a5
+    for (lon, lat) in seam_points(drv, rng, 40 if tier == 'quick' else 1500):
+        try:
+            cs.append(a5.lonlat_to_cell((lon, lat), rng.randint(10, 29)))
+        except Exception:
+            pass
     for (lon, lat) in points(drv, 'quick', rng, 0)[:: (9 if tier == 'quick' else 2)]:
         try:
             cs.append(a5.lonlat_to_cell((lon, lat), rng.randint(2, 29)))
